@@ -76,3 +76,5 @@ def run(ctx):
                 pass
         ctx.check('distance accumulates from zero', any(e[0] == 'for' for e in flat_effects(d[2])), 'body scoring loop missing', ctx.where(TL, 'distance'))
     ctx.guard('layout', layout)
+
+    dependencies(ctx, ['crysp/bits.py', 'crysp/nilsimsa.py', 'crysp/tlsh.py'], 'C19')
